@@ -95,6 +95,18 @@ PeerSetMismatches(w, obs) ==
   IN (IF got = WKeys(w) THEN {} ELSE {<<"C17-peer-set", "expected", WKeys(w), "observed", got>>})
      \cup {<<"C17-duplicate-peer", k>> : k \in multi}
 
+(* C17, "distinct workloads never shadow each other": two workloads that share namespace and name (a bare Pod x next to a     *)
+(* Deployment x) are two peers, and what is reported between them is what the semantics give for two different workloads       *)
+SameNameMismatches(w, obs) ==
+  LET twins == {pq \in ReportPairs(w) : IsW(pq[1]) /\ IsW(pq[2]) /\ pq[1] # pq[2]
+                                        /\ WL(w, pq[1]).ns = WL(w, pq[2]).ns /\ WL(w, pq[1]).name = WL(w, pq[2]).name}
+      es == obs.conns
+      observed(p, q) == UNION {EntryPoints(w, es[i]) : i \in {i \in DOMAIN es : PeerCovers(w, es[i].src, p) /\ PeerCovers(w, es[i].dst, q)}}
+      bad == {pq \in twins : observed(pq[1], pq[2]) # Conn(w, pq[1], pq[2])}
+  IN IF ~DistinctKeys(w) THEN {}
+     ELSE {<<"C17-same-name-workloads-shadow-each-other", WKey(WL(w, pq[1])), WKey(WL(w, pq[2])),
+             "expected", Conn(w, pq[1], pq[2]), "observed", observed(pq[1], pq[2])>> : pq \in bad}
+
 (* The whole acceptance of a plain `list` run (no focus, no exposure).     *)
 ListMismatches(w, obs) ==
   CASE obs.outcome = "panic" -> {<<"panic", obs.errMsg>>}
@@ -107,6 +119,7 @@ ListMismatches(w, obs) ==
          ELSE WellFormedMismatches(obs)
               \cup SemanticMismatches(w, obs, ReportPairs(w))
               \cup PeerSetMismatches(w, obs)
+              \cup SameNameMismatches(w, obs)
 
 ---------------------------------------------------------------------------
 (* C16: --focusworkload is a pure filter of the unfocused report of the    *)
